@@ -654,7 +654,12 @@ type ExecResult struct {
 }
 
 // Exec runs one priced execution of the given kind on fresh accounts against l's container.
-func Exec(l *Lite, kind string) ExecResult {
+func Exec(l *Lite, kind string) ExecResult { return ExecTok(l, kind, "S") }
+
+// ExecTok is Exec naming token tok in the call. The sender holds NFT, roles and counter for the
+// token "S" only: with any other (equally long) name the role-gated kinds must be refused and the
+// transfers must fail for lack of a holding - in every schedule.
+func ExecTok(l *Lite, kind string, tok string) ExecResult {
 	const gas = uint64(1_000_000_000)
 	snd := newLiteAccount(addr('a', 0))
 	dst := addr('c', 1)
@@ -670,15 +675,15 @@ func Exec(l *Lite, kind string) ExecResult {
 	var args [][]byte
 	switch kind {
 	case "ESDTNFTTransfer":
-		args = [][]byte{[]byte("S"), {1}, {1}, dst}
+		args = [][]byte{[]byte(tok), {1}, {1}, dst}
 	case "ESDTNFTCreate":
-		args = [][]byte{[]byte("S"), {1}, []byte("name"), {100}, []byte("hash"), []byte("attributes"), []byte("uri-1"), []byte("uri-2")}
+		args = [][]byte{[]byte(tok), {1}, []byte("name"), {100}, []byte("hash"), []byte("attributes"), []byte("uri-1"), []byte("uri-2")}
 	case "SaveKeyValue":
 		args = [][]byte{[]byte("k1"), []byte("vvvvvv"), []byte("k2"), []byte("value")}
 	case "MultiESDTNFTTransfer":
-		args = [][]byte{dst, {2}, []byte("S"), {1}, {1}, []byte("F"), {0}, {2}}
+		args = [][]byte{dst, {2}, []byte(tok), {1}, {1}, []byte("F"), {0}, {2}}
 	case "ESDTNFTAddURI":
-		args = [][]byte{[]byte("S"), {1}, []byte("another-uri")}
+		args = [][]byte{[]byte(tok), {1}, []byte("another-uri")}
 	}
 	f, err := l.Container.Get(kind)
 	if err != nil {
